@@ -14,20 +14,22 @@ import os, re, subprocess
 import vcheck
 
 C11_TIES = ["GeomV.C11.Ties.Box", "GeomV.C11.Ties.Enlarge", "GeomV.C11.Ties.Mbr", "GeomV.C11.Ties.AssignGroup",
-            "GeomV.C11.Ties.PickNext", "GeomV.C11.Ties.PickSeeds", "GeomV.C11.Src"]
+            "GeomV.C11.Ties.PickNext", "GeomV.C11.Ties.PickSeeds", "GeomV.C11.Ties.ChooseNode", "GeomV.C11.Src"]
 C12_TIES = ["GeomV.C12.Ties.MinDist", "GeomV.C12.Ties.MinMaxDist", "GeomV.C12.Src"]
 
 P11, P12 = "GeomV.C11.", "GeomV.C12."
 DEPS = {P11 + "Ties.Box": [], P11 + "Ties.Enlarge": [], P11 + "Ties.Mbr": [P11 + "Ties.Enlarge"],
         P11 + "Ties.AssignGroup": [P11 + "Ties.Box", P11 + "Ties.Mbr"], P11 + "Ties.PickNext": [P11 + "Ties.Box", P11 + "Ties.Mbr"],
         P11 + "Ties.PickSeeds": [P11 + "Ties.Box", P11 + "Ties.Enlarge"],
+        P11 + "Ties.ChooseNode": [P11 + "Ties.Box", P11 + "Ties.Enlarge"],
         P11 + "Src": [P11 + "Ties.Box", P11 + "Ties.Enlarge", P11 + "Ties.Mbr"],
         P12 + "Ties.MinDist": [], P12 + "Ties.MinMaxDist": [], P12 + "Src": [P12 + "Ties.MinDist", P12 + "Ties.MinMaxDist"]}
 
 TIED_FUNCTIONS = {
     "geom.go": ["size", "margin", "containsPoint", "containsRect", "intersect", "enlarge", "initBoundingBox",
                 "boundingBox", "minDist", "minMaxDist"],
-    "rtree.go": ["(*node).computeBoundingBox", "assignGroup", "pickNext", "(*node).pickSeeds"],
+    "rtree.go": ["(*node).computeBoundingBox", "assignGroup", "pickNext", "(*node).pickSeeds",
+                 "(*Rtree).chooseNode (its loop: the box of the entry recursed into)"],
 }
 
 
